@@ -415,11 +415,29 @@ def work(args):
         rng = random.Random(seed)
         cfg, script, regime, sseed = gen_case(rng, idx, quick)
         ff = fate_factory(cfg, regime)
+    rechunk = False
+    if not isinstance(seed, str) and cfg.transport == "lite" and seed % 3 != 0:
+        # a byte stream has no message boundaries: every write is cut at content-addressed points (down to single bytes, and
+        # within the last bytes of a packet); such sessions are judged on the real code only
+        import zlib
+        rechunk = True
+        mode = seed % 7
+        def chunk_setup(sim, out):
+            def chunker(data):
+                if len(data) < 2: return [data]
+                h = zlib.crc32(data + seed.to_bytes(8, "little"))
+                if mode in (0, 1):
+                    n = 1 + h % 3
+                    return [data[i:i + n] for i in range(0, len(data), n)]
+                cuts = sorted({1 + (h >> (4 * i)) % (len(data) - 1) for i in range(1 + h % 3)} | ({len(data) - 1 - h % min(8, len(data) - 1)} if mode >= 4 else set()))
+                return [data[a:b] for a, b in zip([0] + cuts, cuts + [len(data)]) if a != b]
+            sim.net.chunker = chunker
+        kwargs = dict(kwargs, setup=chunk_setup)
     try:
         sess = ps.run_session(cfg, sseed, script, ff, **kwargs)
         bad = judge(sess, regime)
         big = len(sess.netlog) > 20000
-        lines, expect = to_lines(sess, "s%d" % idx) if not sess.crash and not big and not sess.cfg.compression else ([], [])
+        lines, expect = to_lines(sess, "s%d" % idx) if not sess.crash and not big and not sess.cfg.compression and not rechunk else ([], [])
         stats = {"tx": sum(1 for e in sess.netlog if e[0] == "tx"), "regime": regime if not isinstance(seed, str) else "directed:" + seed,
                  "enc": "lite" if cfg.transport == "lite" else "v%d" % cfg.version, "msgs": len(sess.accepted),
                  "connect_error": bool(sess.connect_error), "timed_out": sess.timed_out}
